@@ -53,6 +53,9 @@ def run(ctx):
     rep.rule("OBS-4", "Unit argument agrees with the accessor producing the value", floor=3)
     rep.rule("OBS-5", "Content-Length is the length of the body written", floor=1)
     rep.rule("OBS-6", "each metric family is emitted by one format_metric call outside loops", floor=20)
+    rep.rule("OBS-7", "the exporter's single read of the daemon's JSON state has room for at least a full path trace "
+                      "list (type-derived lower bound of the message size)", floor=1)
+    obs7(rep, prog)
     obs1(rep, prog)
     obs2(rep, prog)
     fmt_fns = {k: v for k, v in prog.hir.items() if "metrics::format::" in k and "::tests" not in k}
@@ -309,6 +312,110 @@ def handle_call(rep, key, c, in_loop, seen_names):
                                           name, unit, acc, implied), where=hir.where(v))
                     else:
                         rep.ok("OBS-4", key, construct2, detail=unit, where=hir.where(v))
+
+
+def _const_int(prog, n):
+    """evaluate a HIR integer expression made of literals, * + - / and named constants"""
+    n = hir.strip_wrappers(n)
+    v = hir.lit_int(n)
+    if v is not None:
+        return v
+    if n.get("k") == "binary" and n.get("op") in ("*", "+", "-", "/"):
+        a, b = _const_int(prog, n["l"]), _const_int(prog, n["r"])
+        if a is None or b is None:
+            return None
+        return {"*": a * b, "+": a + b, "-": a - b, "/": a // b if b else None}[n["op"]]
+    if n.get("k") == "path" and "def" in n.get("res", {}):
+        try:
+            return int(prog.const_value(n["res"]["def"].split("::")[-1]))
+        except Exception:
+            return None
+    return None
+
+
+def path_trace_json_bound(prog):
+    """(lower bound of the JSON size of a full PathTraceDS.list, explanation): N entries, each a ClockIdentity =
+    newtype over [u8; W] which serde_json writes as `[b,..]` with up to 3 digits per byte"""
+    import re
+    u, a = prog.adts["statime::datastructures::datasets::path_trace::PathTraceDS"]
+    lst = [f for f in a["variants"][0]["fields"] if f["name"] == "list"]
+    if not lst:
+        raise AnchorMissing("PathTraceDS.list not found")
+    t = u.types[lst[0]["ty"]]
+    if t.get("name") != "ArrayVec" or len(t.get("args", [])) != 2:
+        raise AnchorMissing("PathTraceDS.list is not an ArrayVec<_, N>: %s" % t.get("s"))
+    carg = t["args"][1]
+    n = carg.get("v")
+    if n is None:
+        m = re.fullmatch(r"\{?\s*(\w+)\s*(?:/\s*(\d+))?\s*\}?", carg.get("c", ""))
+        if not m:
+            raise AnchorMissing("cannot evaluate ArrayVec capacity %s" % carg)
+        n = int(m.group(1)) if m.group(1).isdigit() else int(prog.const_value("::" + m.group(1)))
+        if m.group(2):
+            n //= int(m.group(2))
+    et = u.types[t["args"][0]["t"]]
+    if et.get("name") != "ClockIdentity":
+        raise AnchorMissing("path trace entries are not ClockIdentity: %s" % et.get("s"))
+    u2, a2 = prog.adts["statime::datastructures::common::clock_identity::ClockIdentity"]
+    inner = u2.types[a2["variants"][0]["fields"][0]["ty"]]
+    m = re.fullmatch(r"\[u8; (\d+)\]", inner.get("s", ""))
+    if not m:
+        raise AnchorMissing("ClockIdentity is not a newtype over [u8; W]: %s" % inner.get("s"))
+    w = int(m.group(1))
+    per = w * 3 + (w - 1) + 2          # [255,255,...]
+    total = int(n) * per + (int(n) - 1) + 2
+    return total, "%d entries x %d bytes ([u8; %d] as JSON numbers) + separators" % (int(n), per, w)
+
+
+def obs7(rep, prog):
+    try:
+        need, why = path_trace_json_bound(prog)
+    except (AnchorMissing, KeyError) as e:
+        rep.anchor_missing("OBS-7", str(e))
+        return
+    found = 0
+    for key, (u, h) in sorted(prog.hir.items()):
+        if "metrics::exporter::" not in key or "::tests::" in key:
+            continue
+        body = hir.simplify(hir.fn_body(h))
+        caps = {}
+        for x in hir.walk(body):
+            if x.get("k") == "let" and x.get("init") is not None:
+                e = hir.strip_wrappers(x["init"])
+                if e.get("k") == "call" and hir.callee_name(e).endswith("::with_capacity") and "Vec<u8>" in e.get("ty", ""):
+                    for _, i in hir.pat_bindings(x["pat"]):
+                        caps[i] = (_const_int(prog, e["args"][0]), hir.where(x))
+                elif e.get("k") == "call" and (hir.callee_name(e).endswith("Vec>::new")) and "Vec<u8>" in e.get("ty", ""):
+                    for _, i in hir.pat_bindings(x["pat"]):
+                        caps[i] = (0, hir.where(x))
+        for x in hir.walk(body):
+            if x.get("k") == "call" and hir.callee_name(x).endswith("::read_json") and len(x.get("args", [])) == 2:
+                used = hir.locals_used(x["args"][1], False)
+                for i in used:
+                    if i in caps:
+                        found += 1
+                        cap, where = caps[i]
+                        if cap is not None and cap >= need:
+                            rep.ok("OBS-7", key, "read_json buffer capacity", detail={"capacity": cap, "needed_at_least": need,
+                                                                                   "because": why}, where=where)
+                        else:
+                            rep.violation("OBS-7", key, "read_json buffer capacity",
+                                          "read_json does ONE read_buf into a Vec with capacity %s; the JSON of a full path "
+                                          "trace list alone needs %d bytes (%s): larger states are cut off and the exporter "
+                                          "answers 500 instead of the state" % (cap, need, why), where=where)
+    # read_json must still be the single-read form this bound is about; if it loops until EOF the capacity is moot
+    if found == 0:
+        rj = [k for k in prog.hir if k.endswith("metrics::exporter::read_json")]
+        if not rj:
+            rep.anchor_missing("OBS-7", "metrics::exporter::read_json not found")
+            return
+        body = hir.simplify(hir.fn_body(prog.hir[rj[0]][1]))
+        loops = [x for x in hir.walk(body) if x.get("k") == "loop"]
+        to_end = [x for x in hir.walk(body) if x.get("k") == "mcall" and x.get("name") in ("read_to_end",)]
+        if loops or to_end:
+            rep.ok("OBS-7", rj[0], "read_json reads until EOF", where=None)
+        else:
+            rep.anchor_missing("OBS-7", "no caller of read_json with a with_capacity buffer found and read_json is a single read")
 
 
 def obs5(rep, prog):
